@@ -41,6 +41,14 @@ fn split_stats(out: &[u8]) -> Option<(Vec<u8>, Vec<u8>)> {
     Some((out[..cut].to_vec(), out[cut..].to_vec()))
 }
 
+/// --json: the summary message's counters (timings removed)
+fn json_summary(out: &[u8]) -> Option<String> {
+    split_lines(out).iter().rev().filter_map(|l| serde_json::from_slice::<serde_json::Value>(l).ok()).find(|v| v["type"] == "summary").map(|mut v| {
+        if let Some(o) = v["data"]["stats"].as_object_mut() { o.remove("elapsed"); }
+        v["data"]["stats"].to_string()
+    })
+}
+
 /// the schedule-independent counters of a trailer: matches, matched lines, files with matches, files searched, bytes searched
 fn stats_counters(trailer: &[u8]) -> Vec<String> {
     let l = split_lines(trailer);
@@ -604,6 +612,13 @@ fn run_tree(case: &str, ctx: &mut Ctx, drv: &mut Driver, rep: &mut Report) {
             problems.push((format!("separator lines outside the gaps between blocks: -j{} {:?}, -j1 {:?}", n,
                 pn.stray.iter().map(|s| show(s)).collect::<Vec<_>>(), p1.stray.iter().map(|s| show(s)).collect::<Vec<_>>()), class));
         }
+        if mode == "json" {
+            rep.branch("stats:json-summary-compared");
+            let (s1, sn) = (json_summary(&out1.stdout), json_summary(&outn.stdout));
+            if s1 != sn || s1.is_none() {
+                problems.push((format!("--json summary counters differ: -j1 {:?} / -j{} {:?}", s1, n, sn), ""));
+            }
+        }
         if let (Some(t1), Some(tn)) = (&trailer1, &trailern) {
             rep.branch("stats:counters-compared");
             if stats_counters(t1) != stats_counters(tn) {
@@ -911,6 +926,7 @@ fn main() {
          --pre on a third of the files, optional CRLF files with --crlf) searched with -j1 once and -jN (N in 2..16) 2x (thorough 6x) \
          in modes no-heading, heading, -o, -c, --count-matches, -l, --files-without-match, --json, --files, each crossed with -A2/-B1/-C1/none, -n, --null (where lines stay newline-terminated) with several root paths (explicit files first, then directories, more roots than threads), with symlinks to files above / below --max-filesize followed by -L, and with binary files (NUL before the match) inside directories and as explicit arguments; sort: --sort/--sortr path/modified/accessed/created (time stamps with ties) with -jN \
          vs -j1; nulldata: the two-file --null-data -C1 witness; failpre: a --pre command that exits 3 after its output on a third of the files. Non-trivial: at least two non-empty blocks. Distinct by case text. \
+         Also crossed with --stats (the trailer is cut off and its counters other than 'bytes printed' compared; --json: the summary message's counters, all of them), --max-count 1-3, --null in every mode but JSON (path-only modes: NUL-terminated paths; --heading: `path NUL`). \
          JSON blocks are compared after removing the elapsed-time fields and the summary line.",
     );
     let rg = args.rg.clone().expect("C08 needs --rg");
